@@ -1409,8 +1409,8 @@ Proof.
   assert (pending st' = omap (purge_txn a) (pending cur) /\ a ∉ signers st') as (Hpend & Hns).
   { destruct Ho as [(dec & ->)|(b & ->)]; cbn [wallet_method] in H.
     - unfold remove_signer in H.
-      repeat match type of H with context [if ?b then _ else _] => destruct b; try discriminate end.
-      inversion H. cbn. split; [reflexivity|]. rewrite remove_addr_elem. tauto.
+      repeat match type of H with context [if ?b then _ else _] => destruct b; try discriminate end;
+        inversion H; cbn; (split; [reflexivity|]); rewrite remove_addr_elem; tauto.
     - unfold swap_signer in H.
       destruct (negb (N.eqb caller self)); [discriminate|].
       destruct (negb (ex b)); [discriminate|].
